@@ -180,9 +180,11 @@ def run_once(world, sname, interval):
                     out = kit.apply(r.ctx, ops[lab])
                     r.outcomes.append((snapshot.row_id, "on_bar", lab, "ok" if out.ok else "rejected", out.error))
         st.script.setdefault(("on_bar", "*"), []).append(decide)
+    px_before = r.price_input_digest  # taken before the frame was handed to Actuator.set_price
     r.go()
     act = r.act
-    obs = {"error": r.error, "bars": [], "rows": [], "actions": [], "snaps": list(r.strategy.snap_digests), "outcomes": [o[:4] for o in r.outcomes]}
+    px_after = frame_digest(r.price_input)
+    obs = {"price_input_changed": px_before != px_after, "error": r.error, "bars": [], "rows": [], "actions": [], "snaps": list(r.strategy.snap_digests), "outcomes": [o[:4] for o in r.outcomes]}
     if r.error is None:
         df = act.account_status_df
         obs["bars"] = list(df.index)
@@ -267,7 +269,7 @@ def judge_inputs(part, wname, interval, sname):
     a = run_once(w, sname, interval)
     d1 = frames_digest(w)
     part.count("input_runs")
-    changed = [k for k in d0 if d0[k] != d1[k]]
+    changed = [k for k in d0 if d0[k] != d1[k]] + (["prices(as handed to set_price)"] if a.get("price_input_changed") else [])
     if changed:
         part.violation(f"C02|inputs|modified|{'+'.join(sorted(c.split('.')[0] for c in changed))}", "a backtest modified the market data / price frames it was given", case, {"frames": changed})
     b = run_once(w, sname, interval)  # fresh Actuator, Broker and market objects on the SAME frames
